@@ -29,6 +29,11 @@ MANIFEST = dict(
           "rm(0) = b^2/a, rm(+-90) = a^2/b, rm monotone in |phi|; linear_velocity = omega * rp; height adds (h/a)(cos phi, sin phi); "
           "distance is symmetric, (0, 0) for coincident points, a*|dlambda| along the equator for |dlambda| < 180 "
           "(the Andoyer correction terms vanish there); antipodal points: the model (exact reals) divides by zero; "
+          "distance IS Andoyer's formula with exactly three cases (s = 0, c = 0, else; no threshold, no near-antipodal branch), is "
+          "360-periodic in either longitude, s + c = 1 (haversine: omega = asin sqrt s), on a sphere it is the great-circle distance, "
+          "and for every valid ellipsoid it lies within [(1-2.5f), (1+f)] of the great circle 2 omega a and, on a meridian, of "
+          "a|dphi| (partial versions of the 0.6 % and 1e-4 clauses); rp = a / 0 and the limit (0, b/a + h/a) of the observer's "
+          "coordinates at the equator / poles; Earth.rho is even, 1 at the equator, 0.9966472 = b/a(IAU76) at the poles, in between; "
           "parallax_correction and parallax_ecliptical (as repaired by f8a396f, ea54de3): declination / latitude in [-90, 90], "
           "longitude in [0, 360), and for EVERY input with the body outside the Earth the angular displacement p satisfies "
           "cos p >= sqrt(1 - s^2), p <= asin s with s = rho sin 8.794''/distance (vector geometry + Cauchy-Schwarz); "
